@@ -34,6 +34,13 @@ THEOREMS = ["DAVerif.C12." + t for t in (
     "C12_builders_accept_ill_formed",
 )]
 FINDING_REMERGE = "C12-extend-remerge"
+# further theorems of these modules (supporting / intermediate statements of the property theorems above): audited
+# for axioms on every run like the rest
+THEOREMS += [
+    "DAVerif.C12.C12_rebuild_all",
+    "DAVerif.C12.C12_rebuild_sem_all_noscope",
+    "DAVerif.C12.C12_rebuild_all_rows",
+]
 ASSUMPTIONS = [
     "the printed *characters* are outside the Lean model: which builder call is printed with which argument values "
     "(Ops/PrintCalls.lean `toCalls`) is tied to `to_python_src_` by suite k3_calls on every run (the real text is read "
